@@ -7,9 +7,9 @@
 #include <string.h>
 #include <stdlib.h>
 
-enum { OP_FAST_OVER, OP_GENERAL_ATOP, OP_SAME_TWICE, OP_FILL, OP_REGION, OP_TRAP, OP_SHARED_SRC, OP_GRADIENT, N_BODY_OPS };
+enum { OP_FAST_OVER, OP_GENERAL_ATOP, OP_SAME_TWICE, OP_FILL, OP_REGION, OP_TRAP, OP_SHARED_SRC, OP_GRADIENT, OP_SHARED_GRADIENT, N_BODY_OPS };
 static const char *body_op_name[N_BODY_OPS] = { "fast-path OVER 8888->8888", "general-path ATOP 8888->0565", "same ADD composite twice (cache hit)", "pixman_fill + fill_rectangles",
-                                                "region32 union/subtract", "rasterize_trapezoid a8", "OVER from the shared source", "linear gradient SRC (general iterators)" };
+                                                "region32 union/subtract", "rasterize_trapezoid a8", "OVER from the shared source", "linear gradient SRC (general iterators)", "SRC from the shared 4-stop gradient (per-thread origin)" };
 
 #define DW 3
 #define DH 2
@@ -21,7 +21,8 @@ typedef struct {
     pixman_image_t *dst32, *dst16, *dst8, *src32, *grad;
     pixman_region32_t reg;
     /* shared, read-only after its first use on the main thread */
-    pixman_image_t *shared_src;
+    pixman_image_t *shared_src, *shared_grad;
+    int tid;
     uint64_t digest;
 } tctx_t;
 
@@ -33,9 +34,19 @@ static inline uint64_t body_hash(const void *p, size_t n, uint64_t h)
 }
 
 /* main thread: build a thread's private objects (tid makes the pixels distinct per thread) */
+static pixman_image_t *body_make_shared_gradient(void)
+{
+    pixman_point_fixed_t p1 = { 0, 0 }, p2 = { pixman_int_to_fixed(8), 0 };
+    pixman_gradient_stop_t stops[4] = { { 0, { 0xffff, 0, 0, 0xffff } }, { 0x5000, { 0, 0xffff, 0, 0xffff } }, { 0xa000, { 0, 0, 0xffff, 0x8000 } }, { 0x10000, { 0xffff, 0xffff, 0, 0xffff } } };
+    pixman_image_t *g = pixman_image_create_linear_gradient(&p1, &p2, stops, 4);
+    pixman_image_set_repeat(g, PIXMAN_REPEAT_PAD);
+    return g;
+}
+
 static void body_setup(tctx_t *t, int tid, pixman_image_t *shared_src)
 {
     memset(t, 0, sizeof *t);
+    t->tid = tid;
     for (int y = 0; y < DH; y++) for (int x = 0; x < DW; x++) {
         t->d32[y][x] = 0x80402010u * (unsigned)(tid + 1) + (unsigned)(y * 7 + x * 13) * 0x01010101u;
         t->s32[y][x] = 0xc0806040u - (unsigned)(tid * 0x111111) + (unsigned)(x * 5 + y) * 0x020304u;
@@ -84,6 +95,9 @@ static void body_run(tctx_t *t, int op)
         pixman_image_composite32(PIXMAN_OP_OVER, t->shared_src, NULL, t->dst32, 0, 0, 0, 0, 0, 0, DW, DH); break;
     case OP_GRADIENT:
         pixman_image_composite32(PIXMAN_OP_SRC, t->grad, NULL, t->dst32, 0, 0, 0, 0, 0, 0, DW, DH); break;
+    case OP_SHARED_GRADIENT:
+        /* several threads read one gradient image (validated by its first use on the main thread) at different origins */
+        pixman_image_composite32(PIXMAN_OP_SRC, t->shared_grad, NULL, t->dst32, 3 * t->tid, 0, 0, 0, 0, 0, DW, DH); break;
     }
 }
 
